@@ -84,11 +84,15 @@ def handle (I : Interner) (line : Json) : Json :=
         match p with
         | .arr b => ⟨(asNat? (b[0]?.getD Json.null)).getD 0, (asNat? (b[1]?.getD Json.null)).getD 0⟩
         | _ => ⟨0, 0⟩
+      let claimed := Gen.ClassRows.rows.any (fun r' => r'.label == label)
       let compat := orderCompat r.ps r.members
       let inst := instOk r.members counts
-      let path := "order/" ++ (if compat then "compat" else "not-compat") ++ (if inst then "/inst-ok" else "/inst-not-ok")
-      -- the property (through C13_order_partial) speaks only about compatible rows and instances within the class's own cardinalities
-      let constrained := compat && inst
+      let path := "order/" ++ (if claimed then "claimed" else "excluded") ++ (if compat then "/compat" else "/not-compat") ++
+        (if inst then "/inst-ok" else "/inst-not-ok")
+      -- the claim (C13_order_table_valid) covers the claimed rows and instances within the class's own cardinalities;
+      -- a claimed row is constrained even when its regenerated form is no longer compatible (then the theorem is broken
+      -- as well and this case is the concrete failing instance)
+      let constrained := claimed && inst
       Json.mkObj [("model", Json.mkObj [("tags", toJ m)]), ("path", path),
         ("spec_model", !constrained || specOrder r.ps m), ("spec_impl", !constrained || specOrder r.ps it),
         ("why", if !constrained || specOrder r.ps it then "" else "serialised child order is outside the XSD content model")]
